@@ -1,6 +1,6 @@
 SPECIFICATION Spec
 CONSTANTS
-  Models = {"ConstituentDecay", "StorageDissolvedDecay", "StorageTrapAll", "InstreamCoarseSediment", "InstreamParticulateNutrient"}
+  Models = {"ConstituentDecay", "StorageDissolvedDecay", "StorageTrapAll", "InstreamCoarseSediment", "InstreamParticulateNutrient", "StorageParticulateTrapping"}
   Grid = "small"
   Emit = TRUE
 INVARIANTS MassConserved ConstituentNonNegative FlushOnlyWhenEmpty FineStoreBounds FineFlushOnlyWhenDry
